@@ -161,14 +161,19 @@ Variables (c : cfg) (g : graph) (p : pin) (s : st).
 Hypothesis W : WF g.
 Hypothesis Ha : 0 < attempts c.
 
-(** own cause, within this poll, of ending in failed / cancelled *)
-Definition own (t : st) (done : list report) (y : nat) : Prop :=
-  (exists v, In (y, Some v) done /\ unsucc v) \/
-  (exists k sc, In (ESubmit y k sc None) (evs t)) \/
-  (canceled t = true /\ incl (parents (attr g y)) (completed t)).
+(** a cause of its own, within this poll, for ending unsuccessfully: an unsuccessful report
+    dispatched in this poll, or a failed submission *)
+Definition rown (t : st) (done : list report) (w : nat) : Prop :=
+  (exists v, In (w, Some v) done /\ unsucc v) \/ (exists k sc, In (ESubmit w k sc None) (evs t)).
+(** popped from the ready queue after a cancel request *)
+Definition popped (t : st) (y : nat) : Prop :=
+  canceled t = true /\ In y (cancelled t) /\ incl (parents (attr g y)) (completed t).
 
+(** every (pending) failed/cancelled node was so before the poll, or was popped after a cancel
+    request, or lies in the sub-tree of a node with an own cause in this poll *)
 Definition J4 (t : st) (cl ca : list nat) (done : list report) : Prop :=
-  forall y, U t cl ca y -> FC s y \/ own t done y \/ exists z, In z (parents (attr g y)) /\ U t cl ca z.
+  forall y, U t cl ca y ->
+    FC s y \/ popped t y \/ exists w, rown t done w /\ w < length g /\ In y (bfs_subtree g w) /\ U t cl ca w.
 Definition J4c (a : conf) : Prop := let '(t, cl, ca, done) := a in J4 t cl ca done.
 
 Lemma J4_mono t cl ca done t' cl' ca' done' :
@@ -176,17 +181,17 @@ Lemma J4_mono t cl ca done t' cl' ca' done' :
   (forall e, In e (evs t) -> In e (evs t')) -> incl done done' ->
   (canceled t = true -> canceled t' = true) ->
   (forall y, In y (completed t) -> In y (completed t')) ->
-  (forall y, U t' cl' ca' y -> U t cl ca y \/ own t' done' y \/ exists z, In z (parents (attr g y)) /\ U t' cl' ca' z) ->
+  (forall y, In y (cancelled t) -> In y (cancelled t')) ->
+  (forall y, U t' cl' ca' y -> U t cl ca y \/ popped t' y \/
+             exists w, rown t' done' w /\ w < length g /\ In y (bfs_subtree g w) /\ U t' cl' ca' w) ->
   J4 t cl ca done -> J4 t' cl' ca' done'.
 Proof.
-  intros HU He Hd Hc Hk Hnew J y Hy.
+  intros HU He Hd Hc Hk Hcc Hnew J y Hy.
   destruct (Hnew y Hy) as [H|[H|H]]; auto.
-  destruct (J y H) as [A|[A|[z [A B]]]]; auto.
-  - right. left. destruct A as [(v & A1 & A2)|[(k & sc & A)|[A1 A2]]]; unfold own.
-    + left. exists v. auto.
-    + right. left. exists k, sc. auto.
-    + right. right. split; auto. intros q Hq. auto.
-  - right. right. exists z. auto.
+  destruct (J y H) as [A|[(A1 & A2 & A3)|(w & A1 & A0 & A2 & A3)]]; auto.
+  - right. left. unfold popped. splits; auto. intros q Hq. auto.
+  - right. right. exists w. splits; auto.
+    destruct A1 as [(v & B1 & B2)|(k & sc & B)]; [left; exists v; auto|right; exists k, sc; auto].
 Qed.
 
 Lemma J4_step a b : pstep c g p a b -> J4c a -> J4c b.
@@ -208,6 +213,7 @@ Proof.
     apply J4_mono; auto.
     + intros e He. apply in_app_iff. auto.
     + rewrite M3. auto.
+    + rewrite M5. auto.
     + intros y Hy. destruct B6 as [(-> & -> & Bf)|[(v & -> & Hv) Ball]].
       * left. unfold U in *. rewrite M5 in Hy. rewrite Bf in Hy. exact Hy.
       * assert (Hb : U t cl ca y \/ In y (bfs_subtree g x)).
@@ -215,11 +221,9 @@ Proof.
           - destruct (B3 y H); auto.
           - destruct (B1 y H); auto.
           - destruct (B2 y H); auto. }
-        destruct Hb as [Hb|Hb]; auto. right.
-        destruct (Nat.eq_dec y x) as [->|Hne].
-        -- left. left. exists v. split; auto. apply in_app_iff. right. left. reflexivity.
-        -- right. apply (bfs_member_parent g x y (U t' cl' ca') W Hl Hb Hne).
-           intros z Hz. unfold U. destruct (Ball z Hz) as [H|[H|H]]; auto.
+        destruct Hb as [Hb|Hb]; auto. right. right. exists x. splits; auto.
+        -- left. exists v. split; auto. apply in_app_iff. right. left. reflexivity.
+        -- unfold U. destruct (Ball x (bfs_subtree_root g x)) as [H|[H|H]]; auto.
   - (* sweep failed *)
     apply J4_mono; auto; try apply incl_refl.
     + intros y. unfold U, rec_set_status, failed_add. sp. rewrite In_sadd. cbn [In]. intuition (subst; auto 6).
@@ -227,6 +231,7 @@ Proof.
   - (* sweep cancelled *)
     apply J4_mono; auto; try apply incl_refl.
     + intros y. unfold U, rec_set_status, cancelled_add. sp. rewrite In_sadd. cbn [In]. intuition (subst; auto 6).
+    + intros y. unfold rec_set_status, cancelled_add. sp. rewrite In_sadd. auto.
     + intros y. unfold U, rec_set_status, cancelled_add. sp. rewrite In_sadd. cbn [In]. intuition (subst; auto 6).
   - (* stage *)
     destruct (stage_node_frame g t x) as (F1 & F2 & F3 & F4 & F5 & F6 & F7 & _).
@@ -238,8 +243,9 @@ Proof.
     change (canceled (set_ready t rest)) with (canceled t). destruct (canceled t) eqn:Cn.
     + apply J4_mono; auto; try apply incl_refl.
       * intros y. unfold U, rec_set_status, cancelled_add. sp. rewrite In_sadd. tauto.
+      * intros y. unfold rec_set_status, cancelled_add. sp. rewrite In_sadd. auto.
       * intros y. unfold U, rec_set_status, cancelled_add. sp. rewrite In_sadd.
-        intros [H|[[->|H]|H]]; auto 6. right. left. right. right. unfold own. sp. auto.
+        intros [H|[[->|H]|H]]; auto 6. right. left. unfold popped. sp. splits; auto. apply In_sadd. auto.
     + set (t1 := set_ready t rest).
       pose proof (execute_record_sets c g x false t1) as ES.
       destruct (execute_record_evs c g x false t1) as (new & V1 & V2 & V3 & V4 & V5).
@@ -250,19 +256,17 @@ Proof.
       * intros e He. rewrite V1. apply in_app_iff. right. exact He.
       * rewrite (er_canceled _ _ _ _ ES). auto.
       * intros y Hy. apply (er_c1 _ _ _ _ ES). exact Hy.
+      * rewrite (er_cancelled _ _ _ _ ES). auto.
       * intros y Hy. unfold U in *. rewrite (er_cancelled _ _ _ _ ES) in *.
         destruct R5 as [R5|R5]; [left; rewrite R5 in Hy; exact Hy|].
-        destruct Hy as [Hy|Hy]; [|auto]. apply R5 in Hy. destruct Hy as [Hy|Hy]; [|auto]. right.
-        destruct (Nat.eq_dec y x) as [->|Hne].
-        -- left. right. left. exists Main, (scheduled (attr g x)). rewrite V1. apply in_app_iff. left.
-           assert (Dr : dry c = false).
-           { destruct (dry c) eqn:Dr; auto. exfalso.
-             unfold execute_record_gen in R5. rewrite Dr in R5.
-             apply Hf. specialize (R5 x). unfold completed_add, rec_set_status in R5. sp.
-             destruct (negb false); apply R5; left; apply bfs_subtree_root. }
-           apply V5; auto. apply R5. left. apply bfs_subtree_root.
-        -- right. apply (bfs_member_parent g x y _ W Hl Hy Hne).
-           intros z Hz. left. apply R5. auto.
+        destruct Hy as [Hy|Hy]; [|auto]. apply R5 in Hy. destruct Hy as [Hy|Hy]; [|auto]. right. right.
+        assert (Hxf : In x (failed (execute_record_gen c g x false t1))) by (apply R5; left; apply bfs_subtree_root).
+        exists x. splits; auto. right. exists Main, (scheduled (attr g x)). rewrite V1. apply in_app_iff. left.
+        assert (Dr : dry c = false).
+        { destruct (dry c) eqn:Dr; auto. exfalso.
+          unfold execute_record_gen in Hxf. rewrite Dr in Hxf.
+          apply Hf. unfold completed_add, rec_set_status in Hxf. sp. destruct (negb false); exact Hxf. }
+        apply V5; auto.
 Qed.
 
 Lemma J4_start : J4c (conf0 s p).
@@ -271,15 +275,18 @@ End Exact.
 
 Theorem poll_exact c g s p : WF g -> 0 < attempts c -> Inv g s -> valid_pin s p = true ->
   let s' := fst (poll c g s p) in
-  forall y, FC s' y -> FC s y \/ own g s' (done_final c p) y \/ exists z, In z (parents (attr g y)) /\ FC s' z.
+  forall y, FC s' y ->
+    FC s y \/ popped g s' y \/
+    exists w, rown s' (done_final c p) w /\ reach g w y /\ FC s' w.
 Proof.
   intros W Ha I V. cbv zeta. pose proof (poll_reach c g p W s I V) as R.
   pose proof (psteps_ind_inv c g p (J4c g s) (J4_step c g p s W Ha) _ _ R (J4_start g p s)) as J.
   unfold J4c, J4 in J. intros y Hy.
-  destruct (J y) as [A|[A|[z [A [B|[B|[[]|[]]]]]]]]; auto.
+  destruct (J y) as [A|[A|(w & A1 & A0 & A2 & A3)]]; auto.
   - unfold U. destruct Hy; auto.
-  - right. right. exists z. unfold FC. auto.
-  - right. right. exists z. unfold FC. auto.
+  - right. right. exists w.
+    assert (Fw : FC (fst (poll c g s p)) w) by (destruct A3 as [B|[B|[[]|[]]]]; unfold FC; auto).
+    splits; auto. apply bfs_subtree_sound; auto.
 Qed.
 
 (** * The fate of a node with an unsuccessful terminal report *)
